@@ -363,6 +363,23 @@ Proof.
   apply current_nonstructural. now apply negb_true_iff in H1.
 Qed.
 
+(* since edc9f34 the modelled structural edit recomputes as well *)
+Lemma current_swap i d : current d -> current (op_swap i d).
+Proof.
+  intro C. unfold op_swap. destruct (S i <? length (lay d))%nat; [|exact C].
+  unfold current; cbn [mode lay]. now rewrite compute_idem.
+Qed.
+
+Lemma current_apply d o : current d -> current (apply_op d o).
+Proof.
+  intro C. destruct o; cbn [apply_op]; [apply current_set_clip|apply current_set_mode|now apply current_swap].
+Qed.
+
+Lemma current_history_all ops : forall d, current d -> current (fold_left apply_op ops d).
+Proof.
+  induction ops as [|o ops IH]; intros d C; [exact C|]. cbn [fold_left]. apply IH. now apply current_apply.
+Qed.
+
 Lemma current_levels d l : current d -> sublevel (lay d) l -> level_ok (mode d) l.
 Proof.
   unfold current. intros C S. rewrite C, compute_spec in S. eapply clip_spec_levels; exact S.
